@@ -11,7 +11,7 @@ Monitor (written from the property text and docs/configuration.md, not from the 
 import base64
 import json
 import re
-from urllib.parse import urlsplit
+from urllib.parse import unquote, urlsplit
 
 from lib import vf
 
@@ -23,17 +23,74 @@ DUR = re.compile(r"^[+-]?(\d+(\.\d*)?|\.\d+)(ns|us|µs|ms|s|m|h)((\d+(\.\d*)?|\.
 UNIT = {"ns": 1, "us": 10**3, "µs": 10**3, "ms": 10**6, "s": 10**9, "m": 60 * 10**9, "h": 3600 * 10**9}
 LEGACY_ACR = {"Level3": "idporten-loa-substantial", "Level4": "idporten-loa-high"}
 
-# docs/configuration.md: provider specific variables
-DOC_PENV = {
-    "idporten": {"openid.client-id": "IDPORTEN_CLIENT_ID", "openid.client-jwk": "IDPORTEN_CLIENT_JWK",
-                 "openid.well-known-url": "IDPORTEN_WELL_KNOWN_URL"},
-    "azure": {"openid.client-id": "AZURE_APP_CLIENT_ID", "openid.client-jwk": "AZURE_APP_CLIENT_JWK",
-              "openid.well-known-url": "AZURE_APP_WELL_KNOWN_URL"},
-}
-DOC_DEFAULTS = {"cookie.same-site": "Lax", "cookie.secure": "true", "openid.id-token-signing-alg": "RS256",
-                "openid.provider": "openid", "sso.mode": "server", "sso.enabled": "false",
-                "shutdown-graceful-period": "30s", "shutdown-wait-before-period": "0s"}
-DOC_IDPORTEN_DEFAULTS = {"openid.acr-values": "Level4", "openid.ui-locales": "nb"}
+# What the documentation says is PARSED from /repo/docs/configuration.md on every run (parse_docs): the flag table
+# (defaults), and per provider section the bound environment variables and the changed defaults. Nothing about the
+# documentation's content is hard-coded here except how a variable name maps to a setting (by its suffix).
+DOCS = None
+PENV_SUFFIX = (("WELL_KNOWN_URL", "openid.well-known-url"), ("CLIENT_ID", "openid.client-id"), ("JWK", "openid.client-jwk"))
+PROVIDER_HEADINGS = {"ID-porten": "idporten", "Azure AD": "azure"}
+NEEDED_DEFAULTS = ("cookie.same-site", "cookie.secure", "openid.id-token-signing-alg", "openid.provider", "sso.mode",
+                   "shutdown-graceful-period", "shutdown-wait-before-period")
+
+
+def parse_docs(path):
+    """-> {"defaults": {flag: default}, "penv": {provider: {setting: VARIABLE}}, "provider_defaults": {provider: {flag: value}}}.
+    Raises vf.InfraError when the file does not have the expected shape (never a silent fallback)."""
+    try:
+        text = open(path, encoding="utf-8").read()
+    except OSError as e:
+        raise vf.InfraError("C20: cannot read the documentation %s: %s" % (path, e))
+    defaults = {}
+    for m in re.finditer(r"^\|\s*`([a-z0-9.\-]+)`\s*\|\s*([a-z]+)\s*\|\s*(?:`([^`]*)`)?\s*\|", text, re.M):
+        defaults[m.group(1)] = m.group(3) or ""
+    if len(defaults) < 40:
+        raise vf.InfraError("C20: flag table of %s not recognised (%d rows)" % (path, len(defaults)))
+    for k in NEEDED_DEFAULTS:
+        if k not in defaults:
+            raise vf.InfraError("C20: flag %s missing from the table in %s" % (k, path))
+    if "boolean flags are by default set to `false`" not in text.lower():
+        raise vf.InfraError("C20: the sentence about the default of boolean flags is missing from %s" % path)
+    penv, pdef = {}, {}
+    sections = re.split(r"^####\s+", text, flags=re.M)[1:]
+    for sec in sections:
+        title = sec.split("\n", 1)[0].strip()
+        prov = PROVIDER_HEADINGS.get(title)
+        if prov is None:
+            continue
+        body = sec.split("\n### ")[0].split("\n## ")[0]
+        names = re.findall(r"^- `([A-Z][A-Z0-9_]*)`", body, re.M)
+        mapping = {}
+        for nm in names:
+            for suf, setting in PENV_SUFFIX:
+                if nm.endswith("_" + suf):
+                    if setting in mapping:
+                        raise vf.InfraError("C20: two documented variables for %s of provider %s: %s, %s" % (setting, prov, mapping[setting], nm))
+                    mapping[setting] = nm
+                    break
+            else:
+                raise vf.InfraError("C20: documented variable %s of provider %s has no known suffix" % (nm, prov))
+        if set(mapping) != {x[1] for x in PENV_SUFFIX}:
+            raise vf.InfraError("C20: provider section %r of %s: expected variables for client id, JWK and well-known URL, found %s" % (title, path, names))
+        penv[prov] = mapping
+        pdef[prov] = {m.group(1): m.group(2) for m in re.finditer(r"^\|\s*`([a-z0-9.\-]+)`\s*\|\s*`([^`]*)`\s*\|\s*$", body, re.M)}
+    if set(penv) != {"idporten", "azure"}:
+        raise vf.InfraError("C20: provider sections (#### ID-porten, #### Azure AD) not found in %s" % path)
+    if "openid.acr-values" not in pdef["idporten"] or "openid.ui-locales" not in pdef["idporten"]:
+        raise vf.InfraError("C20: the idporten defaults table of %s does not list openid.acr-values / openid.ui-locales" % path)
+    return {"defaults": defaults, "penv": penv, "provider_defaults": pdef}
+
+
+def docs():
+    global DOCS
+    if DOCS is None:
+        import os
+        DOCS = parse_docs(os.path.join(vf.REPO, "docs", "configuration.md"))
+    return DOCS
+
+
+# the "other" reading of the two points where documentation and code once differed: used ONLY to name a disagreement
+ALT_AZURE_JWK = ("AZURE_APP_JWK", "AZURE_APP_CLIENT_JWK")
+ALT_IDPORTEN_ACR = ("idporten-loa-high", "Level4")
 
 
 def parse_duration(s):
@@ -82,6 +139,9 @@ def ingress_parts(s):
         return None
     if u.scheme not in ("http", "https") or not u.netloc or not s.lower().startswith(u.scheme + "://"):
         return None
+    # the path becomes a route prefix: the router's pattern characters are not allowed in it (fix 9040a49)
+    if any(ch in unquote(u.path).rstrip("/") for ch in "*{}"):
+        return None
     return u.scheme, (host or "")
 
 
@@ -96,7 +156,7 @@ def jwk_ok(s):
     return need is not None and all(isinstance(k.get(m), str) and k.get(m) for m in need)
 
 
-def documented_view(case, azure_jwk_env="AZURE_APP_CLIENT_JWK", idporten_acr="Level4"):
+def documented_view(case, azure_jwk_env=None, idporten_acr=None):
     """Resolve every setting the way the documentation describes: flag, else WONDERWALL_<NAME>, else the provider's
     variable named in docs/configuration.md, else the documented default."""
     flags, env = {}, {}
@@ -116,7 +176,8 @@ def documented_view(case, azure_jwk_env="AZURE_APP_CLIENT_JWK", idporten_acr="Le
             return flags[name]
         return wenv(name)
 
-    provider = base("openid.provider") or "openid"
+    D = docs()
+    provider = base("openid.provider") or D["defaults"]["openid.provider"]
     if provider not in ("openid", "azure", "idporten"):
         provider = "openid"
 
@@ -125,16 +186,18 @@ def documented_view(case, azure_jwk_env="AZURE_APP_CLIENT_JWK", idporten_acr="Le
             return flags[name], "flag"
         if wenv(name) != "":
             return wenv(name), "wenv"
-        pv = DOC_PENV.get(provider, {}).get(name)
-        if provider == "azure" and name == "openid.client-jwk":
+        pv = D["penv"].get(provider, {}).get(name)
+        if provider == "azure" and name == "openid.client-jwk" and azure_jwk_env is not None:
             pv = azure_jwk_env
         if pv and env.get(pv, "") != "":
             return env[pv], "penv"
-        if provider == "idporten" and name == "openid.acr-values":
+        if provider == "idporten" and name == "openid.acr-values" and idporten_acr is not None:
             return idporten_acr, "default"
-        if provider == "idporten" and name in DOC_IDPORTEN_DEFAULTS:
-            return DOC_IDPORTEN_DEFAULTS[name], "default"
-        return DOC_DEFAULTS.get(name, ""), "default"
+        if name in D["provider_defaults"].get(provider, {}):
+            return D["provider_defaults"][provider][name], "default"
+        if name == "sso.enabled":
+            return "false", "default"   # "Boolean flags are by default set to false unless noted otherwise"
+        return D["defaults"].get(name, ""), "default"
 
     return provider, get, env
 
@@ -197,6 +260,8 @@ def rules(case, **reading):
     ip = v("upstream-ip")
     if (ip == "") != (port == 0) or (port != 0 and not 1 <= port <= 65535):
         bad.append("upstream")
+    if W < 0:
+        bad.append("negative-wait-before")
     if not G > W:
         bad.append("shutdown-periods")
     facts = {"provider": provider, "mode": mode, "blank_key": blank,
@@ -253,6 +318,11 @@ def monitor(ctx, casefile):
         sig.add((started, res["code"], tuple(bad[:2])))
         small = {"note": case["note"], "args": case["args"], "env": case["env"], "disc": case["disc"],
                  "result": res, "violated_rules": bad}
+        if res["code"] in (60, 95):
+            ctx.violation("ingress-path-route-pattern-panic" if res["code"] == 60 else "startup-panic",
+                          "the process panicked during start-up (exit status 2, stack trace) instead of starting or refusing the configuration with an error: " + res["fatal"][:160],
+                          small)
+            continue
         if started == (not bad):
             continue
         # the documented rules and the binary disagree: a violation in every case. To give it a stable name, see
@@ -260,13 +330,15 @@ def monitor(ctx, casefile):
         # explains the binary's behaviour.
         named = False
         alts = []
+        D = docs()
+        doc_jwk = D["penv"]["azure"]["openid.client-jwk"]
+        doc_acr = D["provider_defaults"]["idporten"]["openid.acr-values"]
         for key, reading, what in (
-            ("docs-azure-jwk-env-name", {"azure_jwk_env": "AZURE_APP_JWK"},
-             "provider=azure: docs/configuration.md names AZURE_APP_CLIENT_JWK for the client JWK, the binary reads AZURE_APP_JWK "
-             "(a configuration following the documentation is refused for missing credentials; the documented variable is ignored)"),
-            ("docs-idporten-default-acr", {"idporten_acr": "idporten-loa-high"},
-             "provider=idporten: the documented default of openid.acr-values is Level4, the binary's default is idporten-loa-high "
-             "(refused by a provider that lists only Level3/Level4)"),
+            ("docs-azure-jwk-env-name", {"azure_jwk_env": [x for x in ALT_AZURE_JWK if x != doc_jwk][0]},
+             "provider=azure: docs/configuration.md names %s for the client JWK, the binary reads another variable "
+             "(a configuration following the documentation is refused for missing credentials / the documented variable is ignored)" % doc_jwk),
+            ("docs-idporten-default-acr", {"idporten_acr": [x for x in ALT_IDPORTEN_ACR if x != doc_acr][0]},
+             "provider=idporten: the documented default of openid.acr-values is %s, the binary behaves as if it were another value" % doc_acr),
         ):
             alt_bad, _ = rules(case, **reading)
             alts.append((key, what, alt_bad))
@@ -283,7 +355,10 @@ def monitor(ctx, casefile):
                 bad = alt_bad
                 break
         if started:
-            if bad == ["encryption-key"] and facts.get("blank_key"):
+            if bad == ["negative-wait-before"]:
+                ctx.violation("negative-wait-before-accepted",
+                              "a negative shutdown-wait-before-period passes start-up (the shutdown deadline becomes graceful - wait-before > graceful)", small)
+            elif bad == ["encryption-key"] and facts.get("blank_key"):
                 ctx.violation("blank-encryption-key-accepted",
                               "a supplied encryption key that decodes to 0 bits (only CR/LF) is accepted; the process runs with a random ephemeral key",
                               small)
@@ -302,7 +377,17 @@ def monitor(ctx, casefile):
 
 def run(ctx):
     pre = ctx.path("startcfg")
-    out, dt = vf.run_driver(["startcfg", "-out", pre, "-seed", str(ctx.seed), "-tier", ctx.tier])
+    from lib.machine import code_flags
+    fl = code_flags()
+    D = docs()   # a documentation file that cannot be parsed is a check error, before anything is run
+    args = ["startcfg", "-out", pre, "-seed", str(ctx.seed), "-tier", ctx.tier]
+    for key, opt in (("enc_key_strict", "-enc-key-strict"), ("wait_nonneg", "-wait-nonneg"), ("ingress_pattern_strict", "-ingress-pattern-strict")):
+        if fl.get(key):
+            args.append(opt)
+    out, dt = vf.run_driver(args)
+    ctx.extra["documentation_parsed"] = {"penv": D["penv"], "provider_defaults": D["provider_defaults"],
+                                         "defaults_used": {k: D["defaults"][k] for k in NEEDED_DEFAULTS}}
+    ctx.extra["code_flags"] = {k: fl.get(k) for k in ("enc_key_strict", "wait_nonneg", "ingress_pattern_strict")}
     ctx.timings["startcfg"] = round(dt, 2)
     ctx.extra["driver_summary"] = out.strip().split("\n")[-1]
     ctx.correspondence("key: real crypto.EncryptionKeyOrGenerate vs Model/Config.v cf_key_check (base64 length model)",
